@@ -82,6 +82,9 @@ def check_tokens(r, w, root, fi, ps):
                     good = removed or not chosen
                 if not good and rec['ok']:
                     rec.update(ok=False, pa=pa, msg=f'cancel loop over `{e.iter}` has guard kind `{e.guard}`: it does not cancel exactly the tokens not chosen')
+                if e.d.get('mutates_iter') and rec['ok']:
+                    rec.update(ok=False, pa=pa, msg=f'the cancel loop over `{e.iter}` changes that list while walking it (`{e.iter}.{e.d["mutates_iter"]}`): the iterator '
+                                                    f'skips the element after every removal, so with three or more requests some are never withdrawn')
                 if e.d.get('raises_on') == 'success' and rec['ok']:
                     rec.update(ok=False, pa=pa, msg=f'the cancel loop over `{e.iter}` raises when a cancellation *succeeds* (the check of the result is inverted): '
                                                     f'the node crashes the first time it has a second reservation to withdraw')
